@@ -69,6 +69,11 @@ def gen_case(rng, want_depth=None) -> str:
     for name in ["a", "b", "c"][: rng.choice([1, 1, 2, 2, 3])]:
         d = want_depth if want_depth is not None else rng.choice([0, 1, 2, 2, 3, 3, 4, 4])
         t = g.ty(d, params=params, top=True)
+        used = [a[1] for a in attrs if isinstance(a[1], list) and a[1][0] == "alias" and len(a[1]) > 2]
+        if used and rng.random() < 0.5:
+            # the same parametrised alias as an earlier attribute, with other arguments
+            prev = rng.choice(used)
+            t = ["alias", prev[1], *[cls(rng.choice([C_INT, C_STR, C_INNER])) for _ in prev[2:]]]
         if rng.random() < 0.05:
             t = ["final", t]
         dflt = "-"
@@ -138,6 +143,13 @@ def corpus():
         hand(["(a (alias M (cls 5) (cls 3)) -)"], ['(a (D (s"k" s"v")))'], aliases=["(M (K V) (map (tvar K) (tvar V)))"]),
         hand(["(a (alias L (tvar T)) -)"], ['(a (L s"x"))'], aliases=["(L (P) (seq (tvar P)))"], params=["T"], tp=["(T (cls 3))"]),
         hand(["(a (alias O (alias L (cls 3))) -)"], ['(a (L s"x"))'], aliases=["(O (Q) (opt (tvar Q)))", "(L (P) (seq (tvar P)))"]),
+        # a parametrised alias forwarding its parameter to another one, used twice with different arguments in one class
+        *[hand(["(a (alias Tw (cls 3)) -)", "(b (alias Tw (cls 5)) -)"], [f"(a {va})", f"(b {vb})"],
+               aliases=["(Tw (A) (alias Pr (tvar A) (tvar A)))", "(Pr (A B) (tupf (tvar A) (tvar B)))"])
+          for va, vb in (("(T i1 i2)", '(T s"a" s"b")'), ("(T i1 i2)", "(T i3 i4)"), ('(T s"a" s"b")', '(T s"a" s"b")'))],
+        *[hand(["(a (alias Tb (cls 3)) -)", "(b (alias Tb (cls 5)) -)"], [f"(a {va})", f"(b {vb})"],
+               aliases=["(Tb (V) (map (cls 5) (alias Rw (tvar V))))", "(Rw (V) (seq (tvar V)))"])
+          for va, vb in (('(D (s"k" (L i1)))', '(D (s"k" (L s"x")))'), ('(D (s"k" (L i1)))', '(D (s"k" (L i2)))'))],
         # Literal membership is type-strict (PEP 586)
         hand(["(a (lit i1) -)"], ["(a b1)"]),
         hand(["(a (lit i1) -)"], ["(a f2)"]),
